@@ -82,8 +82,6 @@ struct Ctl {
     granted: usize,
     trace: Vec<Event>,
     locks: Vec<(usize, bool)>,
-    freed: Vec<(usize, usize)>,
-    watched: Vec<usize>,
     free_run: bool,
 }
 
@@ -93,8 +91,6 @@ static CTL: StdMutex<Ctl> = StdMutex::new(Ctl {
     granted: NONE,
     trace: Vec::new(),
     locks: Vec::new(),
-    freed: Vec::new(),
-    watched: Vec::new(),
     free_run: false,
 });
 static CV: Condvar = Condvar::new();
@@ -167,50 +163,69 @@ pub fn cell_access(addr: usize, write: bool) {
     }
 }
 
-fn check_freed(addr: usize) {
-    let hit = {
-        let c = CTL.lock().unwrap();
-        c.active && c.freed.iter().any(|&(p, sz)| addr >= p && addr < p + sz)
-    };
-    if hit {
-        ghost("USE-AFTER-FREE");
-    }
-}
+// ---- allocation tracking (lock-free: called from the global allocator) ----------------------
+static TRACK_ALLOCS: sa::AtomicBool = sa::AtomicBool::new(false);
+static ALLOC_SLOTS: [(sa::AtomicUsize, sa::AtomicUsize); 32] =
+    [const { (sa::AtomicUsize::new(0), sa::AtomicUsize::new(0)) }; 32];
+static ALLOC_N: sa::AtomicUsize = sa::AtomicUsize::new(0);
+static WATCH_PTR: sa::AtomicUsize = sa::AtomicUsize::new(0);
+static WATCH_SIZE: sa::AtomicUsize = sa::AtomicUsize::new(0);
+static DEALLOCS: sa::AtomicUsize = sa::AtomicUsize::new(0);
+static UAF: sa::AtomicUsize = sa::AtomicUsize::new(0);
 
-/// Registers an address whose enclosing heap block is to be watched: its
-/// deallocation is recorded as a ghost event and the block is quarantined
-/// (never returned to the system allocator during the run).
-pub fn watch(addr: usize) {
-    let mut c = CTL.lock().unwrap();
-    if c.active {
-        c.watched.push(addr);
+/// Starts recording allocations (used around `task::spawn` to find the task's heap block).
+pub fn record_allocs(on: bool) {
+    if on {
+        ALLOC_N.store(0, Ordering::SeqCst);
     }
+    TRACK_ALLOCS.store(on, Ordering::SeqCst);
 }
-
-/// Called by the tracking allocator on every deallocation.  Returns true if
-/// the block must be quarantined (not freed).
-pub fn on_dealloc(ptr: usize, size: usize) -> bool {
-    if current_vt().is_none() {
-        return false;
-    }
-    let mut hit = false;
-    if let Ok(mut c) = CTL.try_lock() {
-        if c.active && c.watched.iter().any(|&a| a >= ptr && a < ptr + size) {
-            let th = current_vt().unwrap();
-            let again = c.freed.iter().any(|&(p, _)| p == ptr);
-            c.freed.push((ptr, size));
-            c.trace.push(Event::Ghost {
-                th,
-                what: if again {
-                    "DOUBLE-FREE".to_string()
-                } else {
-                    "dealloc".to_string()
-                },
-            });
-            hit = true;
+pub fn on_alloc(ptr: usize, size: usize) {
+    if TRACK_ALLOCS.load(Ordering::Relaxed) {
+        let i = ALLOC_N.fetch_add(1, Ordering::SeqCst);
+        if i < ALLOC_SLOTS.len() {
+            ALLOC_SLOTS[i].0.store(ptr, Ordering::SeqCst);
+            ALLOC_SLOTS[i].1.store(size, Ordering::SeqCst);
         }
     }
-    hit
+}
+/// Watches the largest block allocated since `record_allocs(true)`: its deallocation is counted and
+/// the block is quarantined (never returned to the system), later accesses are counted.
+pub fn watch_largest_recorded() {
+    let n = ALLOC_N.load(Ordering::SeqCst).min(ALLOC_SLOTS.len());
+    let mut best = (0usize, 0usize);
+    for i in 0..n {
+        let (p, sz) = (ALLOC_SLOTS[i].0.load(Ordering::SeqCst), ALLOC_SLOTS[i].1.load(Ordering::SeqCst));
+        if sz > best.1 {
+            best = (p, sz);
+        }
+    }
+    WATCH_PTR.store(best.0, Ordering::SeqCst);
+    WATCH_SIZE.store(best.1, Ordering::SeqCst);
+    DEALLOCS.store(0, Ordering::SeqCst);
+    UAF.store(0, Ordering::SeqCst);
+}
+/// Returns true if the block must be quarantined instead of freed.
+pub fn on_dealloc(ptr: usize, _size: usize) -> bool {
+    let w = WATCH_PTR.load(Ordering::Relaxed);
+    if w != 0 && ptr == w {
+        DEALLOCS.fetch_add(1, Ordering::SeqCst);
+        return true;
+    }
+    false
+}
+fn check_freed(addr: usize) {
+    let w = WATCH_PTR.load(Ordering::Relaxed);
+    if w != 0 && DEALLOCS.load(Ordering::Relaxed) > 0 && addr >= w && addr < w + WATCH_SIZE.load(Ordering::Relaxed) {
+        UAF.fetch_add(1, Ordering::SeqCst);
+    }
+}
+/// (deallocations of the watched block, accesses after its deallocation, double free?)
+pub fn dealloc_stats() -> (usize, usize, usize) {
+    let d = DEALLOCS.load(Ordering::SeqCst);
+    let r = (d, UAF.load(Ordering::SeqCst), if d > 1 { 1 } else { 0 });
+    WATCH_PTR.store(0, Ordering::SeqCst);
+    r
 }
 
 macro_rules! instrumented_atomic {
@@ -252,6 +267,7 @@ macro_rules! instrumented_atomic {
                     });
                     rd
                 } else {
+                    check_freed(self.addr());
                     f(&self.0).0
                 }
             }
@@ -472,8 +488,6 @@ pub fn run(
         c.granted = NONE;
         c.trace.clear();
         c.locks.clear();
-        c.freed.clear();
-        c.watched.clear();
         c.free_run = false;
     }
     let mut handles = Vec::new();
